@@ -52,6 +52,17 @@ FIXED = [
  ("C14", "e1e7d61", "C14/csv-display/feature/tag", "CSV round trip of a registered text feature: nodes without a value came back with the string 'nan' (empty cells of a pandas string-dtype column were not recognised as missing)"),
 ]
 
+# genuine defects recorded, not repaired (DESIGN.md §8.6): (property, mechanism key, what, demo)
+KNOWN = [
+ ("C11", "C11/lineage-only/component-had-several-lineage-ids-before-the-call",
+  "a refused composite action (forced UserAddEdge / UserAddNode that fails after sub-edits) is rolled back through "
+  "UpdateTrackIDs.inverse(), which writes ONE lineage id to the whole downstream subtree: when the subtree carried "
+  "several lineage ids before the call (undo of a history entry recorded before enable_features re-numbered the "
+  "lineage ids), the refused call changes lineage-id values - and nothing else",
+  "findings/C11_stale_lineage_rollback.py"),
+]
+
+
 def main():
     checks = []
     for pid, (tech, text, note) in CHECKS.items():
@@ -87,6 +98,9 @@ def main():
         "findings": [
             {"property": p, "status": "fixed", "commit": c, "key": k,
              "what": f"fixed: property={p} {c} {w}"} for p, c, k, w in FIXED
+        ] + [
+            {"property": p, "status": "known", "key": k, "what": w, "demo": d}
+            for p, k, w, d in KNOWN
         ],
     }
     (V / "known_findings.json").write_text(json.dumps(kf, indent=1) + "\n")
